@@ -150,7 +150,7 @@ def run(R, tier):
                           'LEFT/RIGHT/MID/SEARCH/VALUE by direct helper calls and through formulas, & and CONCATENATE through formulas; '
                           'non-trivial = argument at or beyond a boundary, or a pattern with a wildcard; distinct by recipe')
     C.proof_obligations(R, 'theories/Props/C17.v', 'Props.C17', TARGETS)
-    if any('build failed' in b for b in R.broken):
+    if any('Coq build failed' in b for b in R.broken):
         return
     n = 500 if tier == 'quick' else 6000
     recipes = corpus() + gen_recipes(R.rng, n)
